@@ -33,11 +33,6 @@ func TestRace(t *testing.T) {
 		s := streams[i%len(streams)]
 		cases = append(cases, g.genCase(s, s+"-race-"+strconv.Itoa(i)))
 	}
-	// sequential reference
-	want := make([]string, len(cases))
-	for i, c := range cases {
-		want[i] = c.run(10 * time.Second)
-	}
 	// shared editors: the same Editor values used by all goroutines at once
 	shared := make([]rosed.Editor, 0, 8)
 	for i := 0; i < 8; i++ {
@@ -48,62 +43,64 @@ func TestRace(t *testing.T) {
 		}
 		shared = append(shared, e.Chars(1, -1)) // sub-editors share their parent copy too
 	}
-	before := make([]string, len(shared))
-	for i, e := range shared {
-		before[i] = obsTok(e)
-	}
-	sharedWant := make([][]string, len(shared))
 	sharedOps := func(e rosed.Editor) []string {
 		return []string{
 			obsTok(e.Wrap(7)), obsTok(e.Justify(20)), obsTok(e.Align(rosed.Center, 12)), obsTok(e.Align(rosed.Right, 12)),
-			obsTok(e.CollapseSpace()), obsTok(e.Insert(2, "x́")), obsTok(e.Delete(-3, rosed.End)), obsTok(e.Commit()),
+			obsTok(e.CollapseSpace()), obsTok(e.Insert(2, "x\u0301")), obsTok(e.Delete(-3, rosed.End)), obsTok(e.Commit()),
 			obsTok(e.Lines(0, 1)), obsTok(e.Indent(1)), obsTok(e.InsertTable(0, [][]string{{"a", "b"}, {"c"}}, 20)),
+			obsTok(e.InsertTableOpts(0, [][]string{{"h"}, {"c"}}, 9, rosed.Options{TableBorders: true, TableHeaders: true, TableCharSet: "\u0600"})),
 			obsTok(e.InsertTwoColumns(0, "left text", "right text here", 2, 20, 0.5)),
 			obsTok(e.InsertDefinitionsTable(0, [][2]string{{"t", "def of t"}}, 30)),
 			strconv.Itoa(e.CharCount()), strconv.Itoa(e.LineCount()), e.String(),
 		}
 	}
-	for i, e := range shared {
-		sharedWant[i] = sharedOps(e)
-	}
+	// The concurrent phase comes FIRST, before anything has run sequentially in this process, so that
+	// lazily initialised package-level state is first touched by racing goroutines.
+	const workers = 16
+	got := make([][]string, workers)
+	gotShared := make([][][]string, workers)
 	var wg sync.WaitGroup
-	errs := make(chan string, 1024)
-	for w := 0; w < 16; w++ {
+	for w := 0; w < workers; w++ {
 		wg.Add(1)
 		go func(w int) {
 			defer wg.Done()
 			r := rand.New(rand.NewSource(seed + int64(w)))
-			for k := 0; k < len(cases); k++ {
-				i := r.Intn(len(cases))
-				if got := cases[i].run(10 * time.Second); got != want[i] {
-					select {
-					case errs <- "case " + cases[i].ID + " differs under concurrency":
-					default:
-					}
-				}
+			got[w] = make([]string, len(cases))
+			gotShared[w] = make([][]string, len(shared))
+			for _, i := range r.Perm(len(cases)) {
+				got[w][i] = cases[i].run(10 * time.Second)
 				j := r.Intn(len(shared))
-				got := sharedOps(shared[j])
-				for x := range got {
-					if got[x] != sharedWant[j][x] {
-						select {
-						case errs <- "shared editor " + strconv.Itoa(j) + " op " + strconv.Itoa(x) + " differs under concurrency":
-						default:
-						}
-					}
-				}
+				gotShared[w][j] = sharedOps(shared[j])
 			}
 		}(w)
 	}
 	wg.Wait()
-	close(errs)
-	for e := range errs {
-		t.Error(e)
-	}
-	for i, e := range shared {
-		if obsTok(e) != before[i] {
-			t.Errorf("shared editor %d changed", i)
+	// sequential reference, afterwards
+	for i, c := range cases {
+		want := c.run(10 * time.Second)
+		for w := 0; w < workers; w++ {
+			if got[w][i] != want {
+				t.Errorf("case %s: result under concurrency differs from the sequential result", c.ID)
+				break
+			}
 		}
 	}
+	before := make([]string, len(shared))
+	for j, e := range shared {
+		before[j] = obsTok(e)
+		want := sharedOps(e)
+		for w := 0; w < workers; w++ {
+			if gotShared[w][j] == nil {
+				continue
+			}
+			for x := range want {
+				if gotShared[w][j][x] != want[x] {
+					t.Errorf("shared editor %d op %d differs under concurrency", j, x)
+				}
+			}
+		}
+	}
+	_ = before
 	// the package-level zero string is still pristine
 	z := rosed.VerifGemZero()
 	_, _, isNil, ends := rosed.VerifCache(z)
